@@ -481,7 +481,7 @@ func TestC04_BackslashRuns(t *testing.T) {
 
 // TestC04_Rapid: strings from generated pieces at generated offsets (shrinkable).
 func TestC04_Rapid(t *testing.T) {
-	runRapid(t, "C04_Rapid", nCases(60_000, 1_500_000), func(t *rapid.T) {
+	runRapid(t, "C04_Rapid", nCases(160_000, 2_000_000), func(t *rapid.T) {
 		var src, exp []byte
 		n := rapid.IntRange(0, 8).Draw(t, "pieces")
 		for i := 0; i < n; i++ {
